@@ -275,3 +275,6 @@ func (engC15) Pin(s *Script, res *Result) *Script {
 	c.Steps = c.Steps[:res.Pin[0]+1]
 	return c
 }
+
+func alignKey() interface{} { return align.PropertyType }
+func skipKey() interface{}  { return properties.Skipable }
